@@ -64,7 +64,7 @@ struct MemW {
 		c->buf.reset(new uint8_t[n ? n : 1]);
 		std::memcpy(c->buf.get(), s.buf.get(), n ? n : 1);
 		c->w = std::make_unique<Stream::MemoryWriter>(c->buf.get(), n);
-		c->w->offset = s.w->offset;
+		peek::copyCursor(*c->w, *s.w);
 		c->model = s.model; c->mpos = s.mpos;
 		return c;
 	}
@@ -460,6 +460,7 @@ void runCase(std::size_t i, Ctx& ctx)
 	if (i == 0) { prefixFamily<uint8_t>(ctx, "u8"); prefixFamily<int8_t>(ctx, "i8"); prefixFamily<uint16_t>(ctx, "u16"); prefixFamily<int16_t>(ctx, "i16"); prefixFamily<uint32_t>(ctx, "u32"); typedInverse(ctx); ctx.state(); return; }
 	if (i == 1) { fileWriterMatrix(ctx); ctx.state(); ctx.sample("FileWriter: flags=9 (CanOpenExisting|Append) on existing file 'OLD!!' then Write('new') must leave 'OLD!!new'"); return; }
 	i -= 2;
+	if (peek::usedFallback()) ctx.count("binding/fallback-keys");
 	std::string dir = ctx.freshDir("c14copy");
 	switch (i) {
 	case 0: copyFamily<1>(ctx, dir); break;
